@@ -1,4 +1,5 @@
 """C16 — user_state is synchronised child-to-parent at end of life, and only then."""
+import time
 from common import Ctx, watchdog
 import inject
 import landing
@@ -155,6 +156,34 @@ def main(ctx: Ctx):
                     w4.terminate(1)
                 except Exception:
                     pass
+            # the child has reported (its work is done) but its process lingers - something the work left behind keeps the
+            # interpreter alive; calls that time out in that window must not make the final state visible early
+            if kind == 'process':
+                sess.write_conf(None)
+                w6 = cls(TG.t_slinger, init_state=10, args=[2.5], **kw)
+                if persistent:
+                    w6.enqueue(2.5)
+                    w6.close()
+                time.sleep(0.6)
+                seen = []
+                for call in ('wait', 'is_alive', 'has_error', 'wait'):
+                    if call == 'wait':
+                        watchdog(lambda: w6.wait(0.3), 10)
+                    elif call == 'is_alive':
+                        watchdog(w6.is_alive, 10)
+                    else:
+                        watchdog(lambda: w6.has_error, 10)
+                    st_a, alive = watchdog(w6.is_alive, 10)
+                    seen.append((call, alive, repr(w6.user_state)))
+                watchdog(lambda: w6.wait(10), 20)
+                final = w6.user_state
+                ctx.case(('lingering-child', prog), True, sample={'case': 'child lingers after its final report', 'prog': prog, 'seen_while_lingering': seen, 'final': repr(final)})
+                early = [x for x in seen if x[1] is True and x[2] != '10']
+                if early:
+                    ctx.fail(f'alive-not-initial:{kind}:lingering-child', f'{prog}: the child has sent its final report and lingers; after {early[0][0]}() the parent sees user_state {early[0][2]} while is_alive() is True (initial 10)',
+                             {'prog': prog, 'scenario': 'lingering-child', 'seen': seen})
+                if final != 12:
+                    ctx.fail(f'final-state-not-synchronised:{kind}:lingering-child', f'{prog}: after the end of a lingering child the parent sees {final!r} instead of 12', {'prog': prog, 'scenario': 'lingering-child'})
             # the last value assigned in the child is a falsy one: it is a value like any other
             if kind != 'thread':
                 for last in (None, 0, [], ''):
